@@ -488,7 +488,7 @@ func largeMerges(c *explore.Ctx, check func(scope string, idx int64, r *mergeRun
 	// implemented via explicit batches (not SegSpec): see largeMergeCase
 	// a negative size n means: a small segment of -n documents that has the field but not the
 	// term (so the term's iterator index differs from its position among the term's iterators)
-	sizes := [][2]int{{1023, 2}, {1024, 1025}, {600, 600}, {-3, 2048}, {2048, -3}}
+	sizes := [][2]int{{1023, 2}, {1024, 1025}, {600, 600}, {-3, 2048}, {2048, -3}, {66000, 3}, {40000, 30000}}
 	if c.Thorough() {
 		sizes = append(sizes, [2]int{2049, 1}, [2]int{1025, 1024}, [2]int{1500, 1600}, [2]int{-1, 3073}, [2]int{-5, 1100})
 	}
@@ -498,6 +498,10 @@ func largeMerges(c *explore.Ctx, check func(scope string, idx int64, r *mergeRun
 			for dropPat := 0; dropPat < 3; dropPat++ {
 				for _, out := range []uint32{1025, 1024} {
 					scope := "MERGE-LARGE"
+					if sz[0] > 30000 && (pat != 0 || out != 1025) {
+						idx++
+						continue // the 66 000-document merges (new numbers cross 65 536): one pattern, adaptive output
+					}
 					if c.MineIdx(scope, idx) && !c.Expired() {
 						c.Eval()
 						c.Nontrivial()
